@@ -479,15 +479,18 @@ where
                 buffer.push_sync(&inner_html);
             } else if Ch::EXISTS {
                 if escapes_content_as_text::<E>() {
-                    let mut content = String::new();
-                    self.children.to_html_with_buf(
-                        &mut content,
+                    // asynchronous children are streamed in, in order (there are no
+                    // comment nodes in a `<textarea>` that could mark a place to fill in
+                    // later), and everything is escaped, whenever it arrives
+                    let mark = buffer.mark();
+                    self.children.to_html_async_with_buf::<false>(
+                        buffer,
                         position,
                         false,
                         mark_branches,
                         vec![],
                     );
-                    buffer.push_sync(&html_escape::encode_text(&content));
+                    buffer.escape_text_since(mark);
                 } else {
                     self.children.to_html_async_with_buf::<OUT_OF_ORDER>(
                         buffer,
